@@ -15,7 +15,8 @@ import (
 
 type src struct {
 	Id  int    `json:"id"`
-	Gen int    `json:"gen"`
+	Gen int    `json:"gen"` // 0: call f(); 1: generator driver inside the script; 2: the script itself is the program
+	Pre string `json:"pre,omitempty"`
 	Src string `json:"src"`
 }
 
@@ -64,7 +65,31 @@ func runOne(s src) (res result) {
 	vm.Set("__gopanic", func(n int64) { panic(foreignPanic{n}) })
 	timer := time.AfterFunc(5*time.Second, func() { vm.Interrupt("timeout") })
 	defer timer.Stop()
+	if s.Pre != "" {
+		if _, err := vm.RunString(s.Pre); err != nil {
+			res.Err = "prelude: " + err.Error()
+			return
+		}
+	}
 	_, err := vm.RunString(s.Src)
+	if s.Gen == 2 {
+		// global placement: normal completion of the script, or the code of the uncaught exception
+		res.Ty, res.V = "return", -1000
+		if err != nil {
+			if ex, ok := err.(*goja.Exception); ok {
+				le, _ := goja.AssertFunction(vm.Get("__LE"))
+				v, err1 := le(goja.Undefined(), ex.Value())
+				if err1 != nil {
+					res.Err = err1.Error()
+					return
+				}
+				res.Ty, res.V = "throw", v.ToInteger()
+			} else if !fatal(vm, &res, err) {
+				res.Err = err.Error()
+			}
+		}
+		return
+	}
 	if err != nil {
 		if !fatal(vm, &res, err) {
 			res.Err = err.Error()
